@@ -3,6 +3,8 @@
 package jpeg
 
 import (
+	"bytes"
+	"io"
 	"unsafe"
 
 	"seehuhn.de/go/membudget"
@@ -41,4 +43,16 @@ func VerifPlaneBytes(nComp int, hv [4][2]int, width, mxx, myy int, streaming boo
 // block and the size of the block type that is allocated for it.
 func VerifProgBlock() (charged, size int) {
 	return bytesPerProgBlock, int(unsafe.Sizeof(block{}))
+}
+
+// VerifProgVisits decodes data with the real decoder (output discarded, a
+// budget of limit bytes) and reports the progressive pass counter, the number
+// of coefficient blocks it is measured against, and the decode error
+// (verification property C08).  It adds no logic of its own.
+func VerifProgVisits(data []byte, limit int64) (visits, totalBlocks int64, err error) {
+	var d decoder
+	d.streamOut = io.Discard
+	d.budget = membudget.New(limit)
+	err = d.decode(bytes.NewReader(data))
+	return d.progVisits, d.totalProgBlocks, err
 }
